@@ -21,6 +21,7 @@ POP = {"pop_transform": "transform", "pop_clip": "clip", "pop_layer": "layer",
        "pop_layer_with_mode": "layer"}
 TRAIT = "skrifa::color::ColorPainter::"
 POISON = "POISON"
+PROBE_ERR = "PROBE_ERR"
 
 
 def painter_locals(body):
@@ -33,7 +34,7 @@ def painter_locals(body):
     return out
 
 
-def balance_check(chk, rid, body, balanced_callees, painters, init=(), want=()):
+def balance_check(chk, rid, body, balanced_callees, painters, init=(), want=(), probes=()):
     """Explore `body`; events are trait calls on `painters`; calls to `balanced_callees` passing a
     painter are forked into Ok (stack unchanged) / Err (poisoned)."""
     findings = []
@@ -42,6 +43,14 @@ def balance_check(chk, rid, body, balanced_callees, painters, init=(), want=()):
     def on_call(bb, t, state, env, trace):
         callee = t.callee
         d = t.d
+        if isinstance(state, tuple) and state[:1] == (PROBE_ERR,):
+            # a probe below this node has failed with an error; the client stack is tracked underneath
+            inner = state[1]
+            r = on_call(bb, t, inner, env, trace)
+            if r is None:
+                return None
+            return [((PROBE_ERR, s2) if (s2 != POISON and not (isinstance(s2, tuple) and s2[:1] == (PROBE_ERR,)) and not _real_ok(t, s2, inner)) else s2, e2)
+                    for s2, e2 in r]
         if callee.startswith(TRAIT) and d["args"]:
             m = callee[len(TRAIT):]
             recv = body.root_local(d["args"][0])
@@ -68,6 +77,15 @@ def balance_check(chk, rid, body, balanced_callees, painters, init=(), want=()):
                 # does it receive one of our painters?
                 passes = any(body.root_local(a) in painters for a in d["args"] if op_place(a) is not None)
                 if not passes:
+                    if probes and any(body.root_local(a) in probes for a in d["args"] if op_place(a) is not None):
+                        # a probe: the nested traversal runs over a painter that forwards nothing but fill_glyph (C13-a2), so
+                        # the client stack is unchanged either way; its *error* must not get lost
+                        stats["forks"] += 1
+                        dl = d["dest"][0] if not d["dest"][1] else None
+                        if state == POISON:
+                            return [(POISON, None)]
+                        return [(state, {dl: 0} if dl is not None else None),
+                                ((PROBE_ERR, state), {dl: 1} if dl is not None else None)]
                     return None
                 stats["forks"] += 1
                 dl = d["dest"][0] if not d["dest"][1] else None
@@ -78,9 +96,20 @@ def balance_check(chk, rid, body, balanced_callees, painters, init=(), want=()):
                 return [ok, err]
         return None
 
+    def _real_ok(t, new_state, inner):
+        # after a failed probe, a real nested traversal (one that received the client painter) that came back Ok has walked the
+        # same sub-graph without error: the probe's error was the probe's own; an Err fork is POISON already
+        if t.callee in balanced_callees and new_state == inner:
+            return any(body.root_local(a) in painters for a in t.d["args"] if op_place(a) is not None)
+        return False
+
     def on_exit(bb, state, rv, env, trace):
         cls = ret_class(body, rv)
         if cls == "err":
+            return
+        if isinstance(state, tuple) and state[:1] == (PROBE_ERR,):
+            findings.append((f"exit classified `{cls}` reachable after a probe traversal failed and no real traversal of the "
+                             f"sub-graph followed: the error (cycle, depth limit, malformed paint) is lost", bb, trace))
             return
         if state == POISON:
             findings.append((f"exit classified `{cls}` reachable after a failed nested traversal whose pushes were not "
@@ -152,7 +181,8 @@ def run_config(chk, facts):
     for b in ([twc, paint, v0] if entry is twc else [twc, entry, paint, v0]):
         ps = painter_locals(b)
         chk.anchor("C13-a", f"painter parameter of {b.path}", ps)
-        stats, ex = balance_check(chk, "C13-a", b, balanced, ps)
+        probes = [i for i in range(1, len(b.locals)) if "CollectFillGlyphPainter" in b.locals[i][0] and not b.locals[i][0].startswith("&")]
+        stats, ex = balance_check(chk, "C13-a", b, balanced, ps, probes=probes)
         total_events += stats["events"]
         chk.sample({"fn": b.path, "states": len(ex.visited), "exits": [(bb, list(s) if s != POISON else s, ret_class(b, rv)) for bb, s, rv in ex.exits[:6]]})
     chk.floor("C13-a", "push/pop call sites seen on the painter", total_events, 10)
